@@ -508,6 +508,13 @@ func ApplyOverlapToChunks(chunks []*Chunk, config OverlapConfig) []*ChunkWithOve
 	generator := NewOverlapGeneratorWithConfig(config)
 	result := make([]*ChunkWithOverlap, len(chunks))
 
+	// The chunks' texts are rewritten below; the overlap for chunk i must come
+	// from chunk i-1's own content, not from the overlap chunk i-1 received.
+	ownText := make([]string, len(chunks))
+	for i, chunk := range chunks {
+		ownText[i] = chunk.Text
+	}
+
 	for i, chunk := range chunks {
 		result[i] = &ChunkWithOverlap{
 			Chunk: chunk,
@@ -515,8 +522,7 @@ func ApplyOverlapToChunks(chunks []*Chunk, config OverlapConfig) []*ChunkWithOve
 
 		if i > 0 && config.Strategy != OverlapNone {
 			// Generate overlap from previous chunk
-			prevChunk := chunks[i-1]
-			overlap := generator.GenerateOverlap(prevChunk.Text)
+			overlap := generator.GenerateOverlap(ownText[i-1])
 
 			if overlap.Text != "" {
 				result[i].OverlapPrefix = overlap.Text
